@@ -19,4 +19,5 @@ def run(prog, tier):
     CR.group_writer_rule(prog, res, 'full-length/group-write')
     CR.parameter_writer_rule(prog, res, 'full-length/parameter-write')
     CR.truncating_write_rule(prog, res)
+    CR.overstrict_guard_rule(prog, res)
     return res
